@@ -411,3 +411,29 @@ Proof.
     destruct (try_finalize_round (ab_height b) prm st2 true) as [st4 e4|cd] eqn:E4; [discriminate|].
     injection Ee as ->. apply (Hround st2 true); [|exact E4]. apply A. unfold TimeoutNever in *. lia.
 Qed.
+
+(* a multi-commitment transaction is all-or-nothing *)
+Lemma executor_commit_all_or_nothing H prm st vcs :
+  snd (fst (executor_commit H prm st vcs)) <> 0 ->
+  fst (fst (executor_commit H prm st vcs)) = st /\ snd (executor_commit H prm st vcs) = false.
+Proof.
+  unfold executor_commit. destruct vcs as [|vc r]; [cbn; intros H0; contradiction|].
+  destruct (rs_suspended st); [split; reflexivity|].
+  destruct (rs_committee st) as [c|]; [|split; reflexivity].
+  destruct (rs_pool st) as [p|]; [|split; reflexivity].
+  destruct (commit_all _ _ _ c p (vc :: r)) as [p1 code].
+  destruct (code =? 0) eqn:E; cbn [fst snd]; [intros H0; contradiction|split; reflexivity].
+Qed.
+
+(* when it succeeds, every commitment in it passed verification and was added, in order *)
+Lemma commit_all_ok round bh mm c : forall vcs p p1,
+  commit_all round bh mm c p vcs = (p1, 0) ->
+  Forall (fun vc => verify round bh mm vc = VOk) vcs /\
+  p1 = fold_left (fun q vc => fst (add c q (vc_ec vc))) vcs p.
+Proof.
+  induction vcs as [|vc r IH]; intros p p1; cbn [commit_all fold_left].
+  - intros H. injection H as <-. split; [constructor|reflexivity].
+  - destruct (verify round bh mm vc) eqn:V; try (cbn; discriminate).
+    destruct (add c p (vc_ec vc)) as [q e] eqn:A. destruct e; try (cbn; discriminate).
+    intros H. apply IH in H as [F E]. split; [constructor; assumption|]. cbn [fst]. exact E.
+Qed.
